@@ -60,7 +60,7 @@ pub fn check_library(lib: &[(String, String)], ext: &str, allow_known: bool) -> 
     let titles: HashMap<String, Option<String>> = lib.iter().map(|(k, t)| (Key::from_file_name(k).to_string(), md::read(t, "").title.map(|s| norm_ws(&s)))).collect();
     for (k, text) in lib {
         let key = Key::from_file_name(k).to_string();
-        let dir = Key::from_file_name(k).parent();
+        let dir = crate::oracle::md::dir_of(k);
         let out = exported.get(&key)?;
         // also through the LSP formatting request
         if let Ok(lsp) = c01::format_lsp(&st, &key, ext) {
@@ -114,7 +114,7 @@ pub fn check_library(lib: &[(String, String)], ext: &str, allow_known: bool) -> 
 /// file name in several directories), every note linking to most of the others as block reference:
 /// key resolution must compare path components, not strings
 fn similar_names_library(r: &mut Rng) -> Vec<(String, String)> {
-    let keys = ["d/x", "d2/x", "d", "dx/y", "d/d/x", "x", "d/d2", "v1.2", "v1", "d/2024.01.15", "d/2024.01", "d.e/x"];
+    let keys = ["d/x", "d2/x", "d", "dx/y", "d/d/x", "x", "d/d2", "v1.2", "v1", "d/2024.01.15", "d/2024.01", "d.e/x", "日本/x", "日本/ü", "заметки/n", "a/日本語/note"];
     // at most 6 notes: the number of outline paths (computed at start-up) grows with the number of reference
     // chains, factorially when every note refers to every other one (finding D35)
     let n = r.range(3, 6);
@@ -126,7 +126,7 @@ fn similar_names_library(r: &mut Rng) -> Vec<(String, String)> {
     chosen
         .iter()
         .map(|k| {
-            let dir = Key::from_file_name(k).parent();
+            let dir = crate::oracle::md::dir_of(k);
             let mut text = if r.chance(3, 4) { format!("# Title of {}\n\n", k.replace('/', " ")) } else { String::from("plain start\n\n") };
             for t in chosen.iter().chain(std::iter::once(&"gone/x")) {
                 if r.chance(2, 3) {
